@@ -746,6 +746,14 @@ func (te *tableEngine) PlayerFold(playerID string) error {
 		return ErrGamePlayerNotFound
 	}
 
+	// the round the player folds in: read before the fold is applied, because a fold
+	// that closes the round lets the hand move on to the next round by itself (on
+	// the game's own goroutine) while this method is still running
+	foldRound := ""
+	if te.table.State.GameState != nil {
+		foldRound = te.table.State.GameState.Status.Round
+	}
+
 	gs, err := te.game.Fold(gamePlayerIdx)
 	if err == nil {
 		te.table.State.LastPlayerGameAction = te.createPlayerGameAction(playerID, playerIdx, WagerAction_Fold, 0, gs.GetPlayer(gamePlayerIdx))
@@ -754,7 +762,7 @@ func (te *tableEngine) PlayerFold(playerID string) error {
 		playerState := te.table.State.PlayerStates[playerIdx]
 		playerState.GameStatistics.ActionTimes++
 		playerState.GameStatistics.IsFold = true
-		playerState.GameStatistics.FoldRound = te.game.GetGameState().Status.Round
+		playerState.GameStatistics.FoldRound = foldRound
 
 		if playerState.GameStatistics.IsFt3BChance {
 			playerState.GameStatistics.IsFt3B = true
